@@ -23,6 +23,22 @@ CHECKS = {
    "stateless model checking of concurrent calls on one shared Client/Handler under a controlled scheduler with deterministic poisoned buffer pools, delay-bounded exhaustive schedule enumeration, differential oracle against solo runs",
    "Two (one scenario: three) threads run complete calls with call-tagged payloads on a single shared Client and Handler whose sync.Pools are replaced by deterministic LIFO stacks that poison released buffers, so any sharing of scratch state, use-after-Put or cross-call mix-up becomes a deterministic observable difference; plus sender||receiver on one bidi stream. Every schedule within the delay bound over ~300 yield points per execution (every statement of the duplex call, every pool/compressor/codec/IO operation, every membrane event) is executed; each call must observe exactly what it observes alone, no poisoned byte may be visible, retained values must stay intact.",
    "sequentially consistent, statement-granular interleavings only: the clause 'no unsynchronised memory access' is decided only as far as such interleavings make a difference observable; a free-running -race pass is supplementary; delay bound 1 quick / 2 thorough"),
+ "C02": ("model_checking", "DESIGN.md 4/C02",
+   "bounded exhaustive input/configuration enumeration on the real client and handler (error code x message x details x metadata x position x protocol x codec x RPC kind)",
+   "All 17 error kinds x 11 message classes (empty, non-ASCII, NUL/control, '%' forms, CR/LF, blanks, 4 KiB) x detail lists x metadata multimaps x 0..2 messages sent first x handler/interceptor as the origin, in every protocol, codec and RPC kind, run on real handlers and clients; the oracle compares code, byte-identical message, details (proto.Equal, order), metadata (per-key order), never-success and the non-2xx status of failed unary Connect calls. Quick covers the full code x message product and every other dimension around a default (deviation bound 2); thorough the full product (3.6e5 calls).",
+   "memhttp instead of real sockets (it strips optional whitespace around field values like an HTTP/1.1 parser); details are Any-wrapped well-known types"),
+ "C11": ("model_checking", "DESIGN.md 4/C11",
+   "bounded exhaustive enumeration of header/trailer multimaps through real calls plus complete enumeration of short byte strings through the binary-header helpers",
+   "Request headers, response headers, response trailers and error metadata multimaps (several values per key, separators, quotes, -Bin values) are pushed through real calls in every protocol and RPC kind for the four outcome shapes; the handler and the client must observe every value unchanged and in per-key order, under headers/trailers when a message was carried and at least in Error.Meta on failure. Every byte string up to length 1 (quick) / 2 (thorough) travels as a -Bin header and trailer value; every byte string up to length 2 (quick) / 3 (thorough, 16.8 M) goes through Encode/DecodeBinaryHeader in padded and unpadded form - a complete enumeration of that domain.",
+   "memhttp canonicalises field names and trims optional whitespace like net/http; header names outside the protocol-reserved prefixes"),
+ "C16": ("model_checking", "DESIGN.md 4/C16",
+   "exhaustive configuration enumeration (interceptor lists x groupings x option nestings x kinds x sides) against a reference onion model",
+   "Every interceptor list up to length 3 (quick) / 4 (thorough) with nil at any positions, every composition into WithInterceptors groups, optional empty groups, every bundling into WithOptions / WithClientOptions / WithHandlerOptions wrappers up to depth 2, for all four RPC kinds on clients and on handlers, is built with the real option constructors; one real call is made and the recorded event log must equal the onion computed from the flat non-nil list (first = outermost, each interceptor exactly once per call and direction).",
+   "interceptors log their first Send/Receive per call; one protocol per configuration (rotating)"),
+ "C19": ("model_checking", "DESIGN.md 4/C19",
+   "exhaustive configuration x program enumeration on real handlers (panic value x kind x protocol x panic point x interceptor position x panic(nil) runtime semantics)",
+   "Each panic value (nil, error, string, struct, pointer, the http abort sentinel, an error wrapping the sentinel, none) is raised at each point (before anything, after the first response, after the last) in each RPC kind and protocol with WithRecover preceded/followed by 0..2 other interceptors, under both GODEBUG panicnil settings; the recovery function must run exactly once with the recovered value, the client must receive exactly its error after the messages already sent, the sentinel must leave ServeHTTP untouched with zero recovery calls, and non-panicking calls must equal a handler without WithRecover.",
+   "memhttp reports what escapes ServeHTTP as net/http's server would see it"),
 }
 
 PENDING = {
